@@ -23,9 +23,9 @@ VERIF = os.path.dirname(os.path.dirname(os.path.abspath(__file__)))
 PY = sys.executable
 
 TIERS = {
-    'C16': {'quick': {'runs': 2400, 'det': 48, 'sweeps': 17, 'max_seconds': 700},
+    'C16': {'quick': {'runs': 2400, 'det': 48, 'sweeps': 25, 'max_seconds': 700},
             'thorough': {'runs': 60000, 'det': 512, 'sweeps': 400, 'max_seconds': 5000}},
-    'C17': {'quick': {'runs': 6000, 'det': 48, 'fresh': 40, 'max_seconds': 700},
+    'C17': {'quick': {'runs': 6000, 'det': 48, 'fresh': 48, 'max_seconds': 700},
             'thorough': {'runs': 150000, 'det': 512, 'fresh': 300, 'max_seconds': 5000}},
 }
 
@@ -241,14 +241,15 @@ def _fresh_batch(prop, tier, master, n):
         elif j < min(2 * len(PUBLIC), (2 * n) // 3):
             # every public function at least twice, each under its own random hash seed
             c = g.call('all', g.base() if rng.random() < 0.6 else None, fname=PUBLIC[j % len(PUBLIC)])
-        elif x < 0.6:
+        elif x < 0.45:
             # tie-prone inputs: vertices of a cell looked up again at its own resolution, poles, whole degrees
             w = [q for q in c17.vertex_walk(g, CTX) if q['f'] == 'lonlat_to_cell']
             rng.shuffle(w)
             pending = w[:3]
             c = pending.pop() if pending else g.call('all', None)
         elif x < 0.8:
-            c = mk('lonlat_to_cell', (float(rng.randrange(-180, 181, 15)), float(rng.choice([-90, 90, 0, 45, -45, 30, 60]))), g.res(0, 20))
+            # whole degrees; the poles (corners of five cells at every resolution) get extra weight
+            c = mk('lonlat_to_cell', (float(rng.randrange(-180, 181, 15)), float(rng.choice([90, 90, 90, -90, -90, 0, 45, -45, 30, 60]))), g.res(2, 20))
         else:
             c = g.call('all', g.base() if rng.random() < 0.6 else None)
         if not CTX.usable(c):
